@@ -30,6 +30,11 @@ CHECKS = {
    text="Pool: lg_k {4,5,8,10,12} x {Hll4,Hll6,Hll8} x {empty, list, set, dense array, array with exceptions (63/31/32/aux)} x {fresh, serialize round trip, out-of-order via a previous union, out-of-order via a foreign (spec-encoded) image}. Every ordered pair of pool members is fed to a real HllUnion for every lg_max_k in {4,7,8,10,12,21}; a BFS to depth 5 (7 thorough) over one member per (gadget mode x source mode x lg relation) cell plus update_value x3 and reset explores orders and repetitions. After every step: lg_config_k == min(lg_max_k, array inputs), to_sketch(Hll4|6|8) content == folded register-wise max / coupon union, converted sketches internally consistent, estimate and six bounds bit-identical across the three requested types and equal to the union's own accessors, estimate > 0 for non-empty inputs, bounds ordered; merged arrivals must have identical content.",
    note="Pool contents are built through the coupon hook so the reference knows them exactly; thorough adds lg_k 6,7,9,14.",
    design="3/C03"),
+ "C06": dict(
+   technique="exhaustive depth-2 product over a sketch pool x union lg_k + explicit-state BFS (merged by reference matrix, arrivals compared) on the real CpcUnion against an OR-of-folded-matrices reference",
+   text="Pool: lg_k {4,5,6,8} x {Empty, Sparse(1), Sparse(max), Hybrid, Pinned, Sliding offset 1/9/40} x up to 4 pair orders (column-major, diagonal, high-columns-first, row-major) x {fresh, serialize round trip, previous union result}. Zero inputs, every single member and every ordered pair are fed to a real CpcUnion for every union lg_k in {4,5,6,8,10}, plus a BFS to depth 5 (7 thorough) over a reduced pool of 10 spanning every flavor and lg relation. After every step to_sketch() is taken: union lg_k == min, num_coupons == popcount(OR of folded reference matrices), result matrix == that OR, validate(), window offset / flavor / first_interesting_column consistent, merged flag set, image has no HIP section and deserializes to the same matrix and estimate; merged arrivals (orders, repetitions) must give identical results.",
+   note="Pool members are built through the row/col hook from known pair lists; thorough adds lg_k 7,10,12 and union lg_k 12,14.",
+   design="3/C06"),
 }
 NOT_BUILT = "check not built yet in this session (planned in DESIGN.md section 3); not claimed until it exists"
 def main():
